@@ -88,8 +88,11 @@ def cases(draw):
         "pre": pre,
         # zip store may be given a path without the .zip suffix (save appends it)
         "suffix_given": draw(st.booleans()) if store == "zip" else True,
-        "when": draw(st.sampled_from(["before", "before", "after"])),
-        "exc": draw(st.sampled_from(["OSError", "RuntimeError", "Injected"])),
+        # "cycle": fault site k uses exception kind EXCS[(k + off) % 4] and timing WHENS[((k + off) // 4) % 3],
+        # so every case exercises every exception kind and both timings across its sites
+        "when": draw(st.sampled_from(["cycle", "cycle", "before", "after"])),
+        "exc": draw(st.sampled_from(["cycle", "cycle", "cycle", "OSError", "RuntimeError", "Injected", "KeyboardInterrupt"])),
+        "off": draw(st.integers(0, 11)),
         "natural": natural,
         "compression": draw(st.sampled_from([None, 0, 4])),
     }
@@ -133,7 +136,21 @@ def _make_exc(name):
         return OSError(errno.ENOSPC, "vq: injected ENOSPC")
     if name == "RuntimeError":
         return RuntimeError("vq: injected")
+    if name == "KeyboardInterrupt":
+        return KeyboardInterrupt("vq: injected")  # "fails part-way for any reason": Ctrl-C during a long save
     return Injected("vq: injected")
+
+
+EXCS = ["OSError", "KeyboardInterrupt", "RuntimeError", "Injected"]
+WHENS = ["before", "after", "before"]
+
+
+def _exc_when(case, k):
+    off = case.get("off", 0)
+    kk = (k or 0) + off
+    exc = case["exc"] if case["exc"] != "cycle" else EXCS[kk % 4]
+    when = case["when"] if case["when"] != "cycle" else WHENS[(kk // 4) % 3]
+    return exc, when
 
 
 class Faults:
@@ -272,7 +289,8 @@ class Scenario:
         shutil.copytree(self.template, work, symlinks=True)
         tmp_before = set(os.listdir(tempfile.gettempdir()))
         try:
-            faults = Faults(fail_at=k, when=case["when"], exc=case["exc"])
+            exc_k, when_k = _exc_when(case, k)
+            faults = Faults(fail_at=k, when=when_k, exc=exc_k)
             raised = None
             with faults.installed():
                 try:
@@ -367,7 +385,8 @@ def check(ctx, case):
             f = sc.run(k)
             nt = bool(n and 1 < k < n and n_attrs >= 3 and has_nested)
             site_kind = f.sites[k - 1].split(":")[0] if k <= len(f.sites) else "beyond"
-            ctx.record(dict(case, k=k), nt, base_classes + ["site:" + site_kind])
+            exc_k, when_k = _exc_when(case, k)
+            ctx.record(dict(case, k=k), nt, base_classes + ["site:" + site_kind, "exc@site:" + exc_k, "when@site:" + when_k])
     finally:
         sc.close()
 
